@@ -5,6 +5,7 @@
   Together with `Cspuz.C11.C11_compose` this yields the property for this puzzle.
 -/
 import CspuzModel.Proofs.C11Masyu
+import CspuzModel.Proofs.C11LoopEx
 namespace Cspuz.C11.Masyu
 open Cspuz Cspuz.Spec Cspuz.Puzzles.Masyu Cspuz.Spec.Masyu
 
@@ -33,5 +34,39 @@ theorem exPb_wf : WellFormed exPb := by
   rcases hr with rfl | rfl | rfl <;> rfl
 
 example : ∃ P, program exPb = .ok P ∧ P.keys = List.range 17 := ⟨_, Cspuz.Proofs.C11Masyu.program_eq exPb exPb_wf, rfl⟩
+
+/-! ### non-vacuity of the rules: a 2 × 2 board without circles is solved by the tour of its four cells; with a black
+circle it has no solution (the two cells next to a corner turn as well) -/
+
+def exPb2 : Problem := { height := 2, width := 2, problem := [[0, 0], [0, 0]] }
+
+theorem exPb2_wf : WellFormed exPb2 := by
+  refine ⟨by decide, by decide, rfl, ?_⟩
+  intro row hr
+  simp only [exPb2, List.mem_cons, List.not_mem_nil, or_false] at hr
+  rcases hr with rfl | rfl <;> rfl
+
+open Cspuz.Spec.Loop in
+theorem exPb2_rules : Rules exPb2 (segAnswer 1 1 fun _ => true) := by
+  refine ⟨fun _ => true, rfl, Cspuz.Proofs.C11LoopEx.unitLoop, ?_⟩
+  intro y hy x hx
+  have hy' : y = 0 ∨ y = 1 := by simp only [exPb2] at hy; omega
+  have hx' : x = 0 ∨ x = 1 := by simp only [exPb2] at hx; omega
+  rcases hy' with rfl | rfl <;> rcases hx' with rfl | rfl <;>
+    exact ⟨fun h => absurd h (by decide), fun h => absurd h (by decide)⟩
+
+open Cspuz.Spec.Loop in
+example : ∃ P σ, program exPb2 = .ok P ∧ Sat P.decls P.cs σ ∧
+    P.keyVals σ = (segAnswer 1 1 fun _ => true).map some := by
+  obtain ⟨P, hP⟩ := total exPb2 exPb2_wf
+  obtain ⟨σ, hσ, hk⟩ := ((program_iff_rules exPb2 exPb2_wf P hP).1 _).mpr exPb2_rules
+  exact ⟨P, σ, hP, hσ, hk⟩
+
+/-- The black-circle rule is not vacuous either: on the tour of the 2 × 2 board the cell `(0, 0)` turns but its
+neighbours do not go straight. -/
+example : ¬ Black 1 1 (fun _ => true) (0, 0) := by
+  rintro ⟨_, h⟩
+  have := h .right (by decide)
+  revert this; decide
 
 end Cspuz.C11.Masyu
